@@ -171,6 +171,7 @@ func checkReplyPaths(c *core.Ctx, rule string, fn *ssa.Function, role *orcaRole,
 
 func runC08(c *core.Ctx) {
 	defer func() {
+		c.Share(map[string]string{"R18.6": "R8.17"}, runC18) // the orchestrators record a latency before they reply: an observer that indexes past its ring panics, the request gets no reply
 		c.Share(map[string]string{"R11.2": "R8.10"}, runC11)                                  // continuing after a parse error that consumed nothing leaves the stream out of sync
 		c.Share(map[string]string{"R7.9": "R8.9", "R7.6": "R8.12", "R7.10": "R8.13"}, runC07) // a header released twice is decoded by two connections: replies carry another request's opaque
 	}()
